@@ -378,18 +378,71 @@ def run_case(c):
     obs0, occ0 = observe(model, vals_by_pos, pathvals0)
     out["states"] = [obs0]
     out["steps"] = []
+    if c.get("frozen"):
+        # what a fit does before it saves its model: the queries above have run, now the model is frozen
+        # (caches exist; every later query of the ORIGINAL is answered from them)
+        model.freeze()
+        _ = model.prior_count, model.paths, model.unique_prior_tuples
     cur = model
     for st in c["steps"]:
+        prev = cur
         try:
-            cur = trip(cur, st["form"], st.get("variant"))
+            cur = trip(prev, st["form"], st.get("variant"))
         except BaseException as e:  # noqa
             import traceback
             out["steps"].append({"exc": type(e).__name__, "msg": str(e)[:200], "tb": traceback.format_exc()[-500:]})
             break
+        rows = ROW_ORDER.pop() if (st["form"] == "db" and ROW_ORDER) else []
         o, _ = observe(cur, vals_by_pos, pathvals0)
-        out["steps"].append({"ok": True, "rows_out_of_order": ROW_ORDER.pop() if (st["form"] == "db" and ROW_ORDER) else []})
+        step = {"ok": True, "rows_out_of_order": rows, "frozen_before": bool(getattr(prev, "_is_frozen", False)),
+                "frozen_after": bool(getattr(cur, "_is_frozen", False))}
+        if c.get("frozen"):
+            step["thaw"] = thaw_and_modify(prev, st)
+        out["steps"].append(step)
         out["states"].append(o)
     return out
+
+
+def thaw_and_modify(prev, st):
+    """A SECOND reload of the same (possibly frozen) model must be usable as a model: it can be unfrozen,
+    given new attributes, its tuple members and collection items can be reassigned, and it still answers queries."""
+    try:
+        m = trip(prev, st["form"], st.get("variant"))
+        if st["form"] == "db" and ROW_ORDER:
+            ROW_ORDER.pop()
+        m.unfreeze()
+        n0 = m.prior_count
+        done = []
+
+        def walk(obj, depth=0):
+            if isinstance(obj, Model):
+                for k, v in list(obj.__dict__.items()):
+                    if isinstance(v, TuplePrior):
+                        for mk, mv in list(v.__dict__.items()):
+                            if not mk.startswith("_") and mk != "id" and isinstance(mv, float):
+                                setattr(obj, mk, mv + 1.0)           # through Model.__setattr__ into the tuple prior
+                                setattr(v, mk, mv)                  # and directly
+                                done.append("tuple-member")
+                                break
+                    elif isinstance(v, (Model, Collection)):
+                        walk(v, depth + 1)
+                obj.c08_extra = 1.5
+                del obj.c08_extra
+                done.append("model-attr")
+            elif isinstance(obj, Collection):
+                for k, v in list(obj.__dict__.items()):
+                    if isinstance(v, (Model, Collection)):
+                        walk(v, depth + 1)
+                obj.c08_extra = af.UniformPrior(0.0, 1.0)
+                done.append("coll-attr")
+        walk(m)
+        grew = m.prior_count - n0
+        m.freeze()
+        m.unfreeze()
+        return {"ok": True, "done": sorted(set(done)), "grew": grew}
+    except BaseException as e:  # noqa
+        import traceback
+        return {"exc": type(e).__name__, "msg": str(e)[:200], "tb": traceback.format_exc()[-400:]}
 
 
 def observe_array(model, pathvals):
@@ -430,6 +483,9 @@ def run_array(c):
     byid = dict(pathvals)
     pathvals = {tuple(map(str, path)): byid[int(prior.id)] for path, prior in model.path_priors_tuples}
     out = {"states": [observe_array(model, pathvals)], "steps": []}
+    if c.get("frozen"):
+        model.freeze()
+        _ = model.prior_count, model.paths
     cur = model
     for st in c["steps"]:
         try:
